@@ -330,7 +330,7 @@ func init() {
 		Harnesses: []harnessSpec{
 			{Pkg: "json", Func: "HarnessC17_Strip", Labels: []string{"strip-comment", "strip-plain"},
 				Bound:  "templates [S] (S up to 3 units), {S: S}, [S,S] (1 unit each), [literal]; 0-1 comment (line with/without final newline at end of input, or block; 0-2 symbolic content bytes) in any slot; reads: whole, 1 byte, one split inside or right after a comment marker",
-				BoundT: "0-2 comments with 0-3 content bytes; one split at every offset"},
+				BoundT: "0-2 comments with 0-2 content bytes; one split at every offset"},
 		},
 	})
 }
